@@ -22,28 +22,25 @@ RULE = ('valid stream: programs derived at random from the dialect grammar (harn
 ASSUMPTIONS = ['tokens are those of pico8/lua/lexer.py for both the input and the written text (C07 is about the lexer)',
                'writer mode: args without ignore_tokens (what p8tool luafmt uses)',
                'valid programs are generated without a parenthesised expression followed by a suffix and without a short-if '
-               'body starting with do, except in the dedicated streams (known findings); a one-line if whose else branch is empty is '
-               'in the corpus only (known finding short-if-empty-else)']
+               'body starting with do, except in the dedicated streams (known findings)']
 PARTIAL = ('C09_aligned is proved for every token list the parser model reads to its end and whose tree lies in the domain '
            '`writable` (Model/WriterDomain.v): plain token spelling (what the lexer produces), no parenthesised prefix followed by a '
-           'suffix (known finding paren-suffix), no `if c do ... end` (known finding short-if-do-body), no one-line `if (c) ... else` with '
-           'an empty else branch (finding short-if-empty-else, found by this proof), none of the non-programs the parser accepts (`()`, '
-           '`{,1}`, `for =1,2 do end`, `if then`, `if f(x) y=1`). The exclusions are needed: C09_aligned_*_refuted. Not proved: that the '
-           're-lexed output has the same code view (holds_C09 / same_code are evaluated by the monitor on the real output; the theorems '
-           'are at chunk level, the lexer is C07), the line-scope clause (lines_kept), and completeness of the parser on valid programs '
-           '(C08). See notes/C09.md')
+           'suffix (known finding paren-suffix), no `if c do ... end` (known finding short-if-do-body), none of the non-programs the '
+           'parser accepts (`()`, `{,1}`, `for =1,2 do end`, `if then`, `if f(x) y=1`). The first two exclusions are needed: '
+           'C09_aligned_paren_prefix_refuted, C09_aligned_if_do_refuted. Not proved: that the re-lexed output has the same code view '
+           '(holds_C09 / same_code are evaluated by the monitor on the real output; the theorems are at chunk / byte level, the lexer is '
+           'C07), the line-scope clause (lines_kept), and completeness of the parser on valid programs (C08). See notes/C09.md')
 CLAIM = dict(
     text=("Model/AstWriter.v mirrors LuaASTEchoWriter (every handler, _get_text/_get_name/_get_semis/_get_code_for_spaces "
           "with the token cursor and the indent counter, the end-of-input check of to_lines), parameterised by the spaces "
           "function. Theorems (closed under the global context): C09_aligned (for every token list: if the parser model returns "
           "(root, e), nothing but white space follows e and the tree is in the domain `writable` - lexer token spelling, no "
-          "parenthesised prefix with a suffix, no `if c do`, no one-line if with an empty else, none of the non-programs the parser "
-          "lets through - then the writer walk over the Python-visible tree never raises, ends with its cursor at the end of the "
+          "parenthesised prefix with a suffix, no `if c do`, none of the non-programs the parser lets through - then the writer walk over the Python-visible tree never raises, ends with its cursor at the end of the "
           "token list, its Code chunks are exactly the significant tokens of the input, in order, each with the token's own code, "
           "and the chunk list tiles the token list, so only the white-space runs are left to the spaces function), "
           "C09_whitespace_only (for the echo writer the text is the input's bytes; for luafmt with any indent width the text has "
-          "the same bytes as the input outside white space, in order, and every code token verbatim), C09_aligned_*_refuted (each "
-          "exclusion is needed: witness programs on which the model - and the real writer - raise AssertionError), "
+          "the same bytes as the input outside white space, in order, and every code token verbatim), C09_aligned_*_refuted (the "
+          "two finding exclusions are needed: witness programs on which the model - and the real writer - raise AssertionError), "
           "C09_no_silent_loss (if a significant token lies at or after the end of the root node the writer raises ParserError and "
           "writes nothing). Proof route: Proofs/ParserShape.v re-runs the weakest-precondition proof of the parser with the "
           "postcondition `span` (every leaf was the first significant token at the cursor, node ends are cursors) and `shaped` "
@@ -57,7 +54,7 @@ CLAIM = dict(
     design_ref='8 C09')
 
 MAIN_ALLOW = ('nested_shortif', 'break_mid', 'qmark')
-SPECIAL = ['paren-suffix', 'short-if-do-body', 'short-if-empty-else']
+SPECIAL = ['paren-suffix', 'short-if-do-body']
 WIDTHS_QUICK = [-1, 0, 2, 4, 8]
 WIDTHS_THOROUGH = [-1, 0, 1, 2, 3, 4, 5, 6, 7, 8]
 
@@ -117,7 +114,9 @@ def generate(tier, rng):
 DEGENERATE = [b'', b'\n', b'\n\n', b' ', b'-- only a comment', b'-- c\n', b'--[[ block\ncomment ]]', b'// c', b'x=1', b'x=1 -- c', b'return',
               b'f()', b'if (a) b=1', b'do end', b'x=1;', b'x = "s"', b'::l::', b'goto l', b'while x do break end', b'x=1\n\n\n', b'x=1\n  ',
               b'\n\nx=1', b'  x=1', b'x=[[a\nb]]', b'x=1 --[[c]]', b'local function f() end', b'x={}', b'x=f{}', b'x=f""']
-CORPUS_VALID = [b'if (a) b=1 else\nc=2\n', b'if (a) b=1 else ;\n', b'if (a) b=1 else\n', b'if (a) b=1 else', b'(f or g)(x)\n', b'x=(a+b).c\n', b'(-x):f()\n', b'x=(a)(b)\n', b'(a).b=1\n', b'("x"):len()\n', b'(f)(x)\n', b'x=((a))\n', b'x=(a)\n',
+CORPUS_VALID = [b'if (a) b=1 else\nc=2\n', b'if (a) b=1 else ;\nc=2\n', b'if (a) b=1 else -- x\nc=2\n', b'if (a) b=1 else',
+                b'if (a) b=1 else  ;;  \n', b'do if (a) b=1 else\nend\n', b'if (a) if (b) c=1 else\nd=2\n',   # else without statements (fixed)
+                b'(f or g)(x)\n', b'x=(a+b).c\n', b'(-x):f()\n', b'x=(a)(b)\n', b'(a).b=1\n', b'("x"):len()\n', b'(f)(x)\n', b'x=((a))\n', b'x=(a)\n',
                 b'if (a) do x=1 end\n', b'if (a) if (b) c=1\nd=2\n', b'if (a) b=1 else c=2\nd=3\n', b'if (a) b=1 -- c\nd=3\n', b'do if (a) b=1\nc=2 end\n',
                 b'x=1;;y=2;\n', b';x=1\n', b'x = {1,2;3,}\n', b'x = {a=1,\n  [2]=3;\n  f(),\n}\n', b'for i=1,2 do end for a,b in c do end\n',
                 b'function a.b:c(...) return ... end\n', b'while true do break x=1 end\n', b'x\t=\t1\r\ny = 2\r\n', b'x=1\n\n\n\ny=2\n', b'do\n\nx=1\nend\n',
@@ -235,8 +234,6 @@ def special_of(case, obs):
             return 'paren-suffix'
         if re.search(rb'if\s*\([^\n]*\)\s*do\b', src):
             return 'short-if-do-body'
-        if re.search(rb'if\s*\([^\n]*\belse[ \t;]*(--[^\n]*|//[^\n]*)?(\n|$)', src):
-            return 'short-if-empty-else'
     return None
 
 
